@@ -49,8 +49,24 @@ Definition bct_conn (d : bdesign) (m : bmodule) (x : binst) (c : name * bexpr) :
   end.
 
 (* ConnTypes.elaborate_module: `for inst in module.instances.values()` - arrays are not looked at *)
+(* Unconnected(portname) for a Bundle-valued port: ResolvePortRefs ran before, so a port that is referred to (BXRef) got the
+   source of its group; what is left unconnected is referred to by nobody.  (Scalar ports: the scalar ConnTypes after flattening.) *)
+Definition bct_ports (d : bdesign) (m : bmodule) (x : binst) : result unit :=
+  match bi_of x with
+  | TMod k =>
+      c <- nth_bmod d k ;;
+      all_ok (fun pt : bool * btree =>
+                if fst pt then
+                  match bassoc (BundleSpec.bname (snd pt)) (bi_conns x) with
+                  | Some _ => Ok tt
+                  | None => check (0 <? brefs_to m (bi_name x) (BundleSpec.bname (snd pt))) EMissing
+                  end
+                else Ok tt) (bm_bundles c)
+  | TDev _ _ => Ok tt
+  end.
+
 Definition bct_inst (d : bdesign) (m : bmodule) (x : binst) : result unit :=
-  if (bi_n x <=? 0) then all_ok (bct_conn d m x) (bi_conns x) else Ok tt.
+  if (bi_n x <=? 0) then _ <- all_ok (bct_conn d m x) (bi_conns x) ;; bct_ports d m x else Ok tt.
 Definition bct_module (d : bdesign) (m : bmodule) : result unit := all_ok (bct_inst d m) (bm_insts m).
 Definition bundle_conntypes (d : bdesign) : result unit := all_ok (bct_module d) (bd_mods d).
 
